@@ -396,6 +396,10 @@ def handle (j : Json) : Except String Json := do
       let xs ← getFloats j "x"
       pure (Json.mkObj [("out", floatsJson (xs.map (fun x => if inv then constrainInv bs bp lb ub x else constrainFwd bs bp lb ub x))),
                         ("case", Json.num (JsonNumber.fromNat (boundCase lb ub)))])
+  | "fraction_in_view" =>
+      let w ← getRats j "w"
+      let mask ← j.getObjValAs? (Array Bool) "mask"
+      pure (Json.mkObj [("fraction", Json.str (showRat (fractionInView w mask.toList))), ("shipped", Json.str (showRat (fractionInViewShipped w mask.toList)))])
   | "find_width" =>
       let grid ← getRats j "grid"; let prof ← getRats j "prof"
       pure (Json.mkObj [("w", Json.num (JsonNumber.fromNat (findWidthOn grid prof)))])
